@@ -293,7 +293,63 @@ pub fn apply_edit(cx: &mut Cx, nm: &mut Namer, file: &mut A2lFile) -> Option<Str
     }
     let mi = cx.tape.draw(file.project.module.len() as u64) as usize;
     let module = &mut file.project.module[mi];
-    match cx.tape.draw(11) {
+    match cx.tape.draw(13) {
+        11 => {
+            // reset_location() on one MODULE-level element: it is then written like a new element (at the end of
+            // its module), with all its children
+            macro_rules! reset_in {
+                ($($list:ident),*) => {{
+                    let mut res = None;
+                    let lists: [&str; 8] = ["measurement", "characteristic", "compu_method", "group", "function", "axis_pts", "record_layout", "compu_vtab"];
+                    let start = cx.tape.draw(8) as usize;
+                    for off in 0..8 {
+                        let which = lists[(start + off) % 8];
+                        $(
+                            if which == stringify!($list) && !module.$list.is_empty() && res.is_none() {
+                                let i = cx.tape.draw(module.$list.len() as u64) as usize;
+                                module.$list[i].reset_location();
+                                res = Some(format!("reset_location() on {} {}", stringify!($list), module.$list[i].get_name()));
+                            }
+                        )*
+                    }
+                    res
+                }};
+            }
+            let r = reset_in!(measurement, characteristic, compu_method, group, function, axis_pts, record_layout, compu_vtab);
+            if r.is_some() {
+                nm.order_disturbed = true;
+            }
+            r
+        }
+        12 => {
+            // merge a small module (fresh names) into the first module
+            // same declared version as the file: merging a newer file upgrades the version, which may turn
+            // elements of the old file into deprecated ones (a documented consequence, not a finding)
+            let (vno, uno) = file.asap2_version.as_ref().map_or((1, 71), |v| (v.version_no, v.upgrade_no));
+            let mut text = format!("ASAP2_VERSION {vno} {uno}\n/begin PROJECT other \"\"\n/begin MODULE other_mod \"\"\n");
+            let n = 1 + cx.tape.draw(4);
+            for _ in 0..n {
+                let name = nm.ident(cx);
+                let s = api_string(cx).replace('\\', "/").replace('"', "'").replace(['\n', '\r', '\t'], " ");
+                match cx.tape.draw(4) {
+                    0 => text.push_str(&format!("/begin MEASUREMENT {name} \"{s}\" UBYTE NO_COMPU_METHOD 0 0 0 255 ECU_ADDRESS 0x1000 /end MEASUREMENT\n")),
+                    1 => text.push_str(&format!("/begin COMPU_METHOD {name} \"{s}\" RAT_FUNC \"%6.3\" \"\" COEFFS 0 1 0 0 0 1 /end COMPU_METHOD\n")),
+                    2 => text.push_str(&format!("/begin GROUP {name} \"{s}\" ROOT /end GROUP\n")),
+                    _ => text.push_str(&format!("/begin CHARACTERISTIC {name} \"{s}\" VALUE 0x2000 rl 0 NO_COMPU_METHOD 0 100 /end CHARACTERISTIC\n")),
+                }
+            }
+            text.push_str("/end MODULE\n/end PROJECT\n");
+            match a2lfile::load_from_string(&text, None, false) {
+                Ok((mut other, _)) => {
+                    file.merge_modules(&mut other);
+                    // merged elements keep the line numbers of their source file, which decide their output order
+                    // among the elements without position id: list order and output order may differ
+                    nm.order_disturbed = true;
+                    Some(format!("merge_modules with a module of {n} elements"))
+                }
+                Err(_) => None,
+            }
+        }
         10 => {
             // remove the element that is written last in its MODULE (highest position id among the lists below)
             macro_rules! last_of {
